@@ -19,3 +19,14 @@ PROPS = {
 }
 
 C08_DRIVERS = []
+
+# Texts for MANIFEST.json (gen_manifest.py).
+NOT_APPLICABLE = {}
+MANIFEST_TEXT = {
+    "C01": dict(engine="E-input", design_ref="DESIGN.md §4 C01",
+        technique="bounded exhaustive input enumeration on the real code (small-scope + regime-alphabet words) against a reference model",
+        level_text="Every bit sequence up to length 12/17 and every word up to depth 2/3(+4) over a regime alphabet that reaches long and short select superblocks for ones and zeros, "
+                   "multi-block rank samples and partial last words; every query argument in the stated sets; three build configurations (portable select, BMI2, overflow checks on). "
+                   "A coverage statement over that space, not a proof for all inputs.",
+        level_note="Trusts the reference model (self-checked against brute force) and rustc; vectors beyond ~330k bits are not explored."),
+}
